@@ -68,7 +68,9 @@ def handle (op : String) (a r : Json) : Except String Reply := do
         if blocked then bad := some ("C04/status-query-blocks", s!"after the restart a status query for a '{kind}' unit got no answer")
         else if !listed then bad := some ("C04/unit-lost", s!"a '{kind}' unit whose ID had been handed out is not listed after the restart (record on disk: {diskClass})")
         else if wt != expType then
-          bad := some (if diskClass == "empty" || ddetail.startsWith "Failed to restart: unexpected end of JSON input" then "C04/record-truncated-by-crash" else "C04/work-type-lost",
+          -- a work type can only get lost through an emptied record: the next rewrite skips the re-read of an empty file
+          -- and stores the writer's own copy (the restarted node's, or a surviving runner's, which has no work type)
+          bad := some (if diskClass == "empty" || ddetail.startsWith "Failed to restart: unexpected end of JSON input" || ((getStr o "disk_wt").toOption.getD "x") == "" then "C04/record-truncated-by-crash" else "C04/work-type-lost",
             s!"a '{kind}' unit is listed with work type '{wt}' instead of '{expType}' after the restart (record on disk: {diskClass})")
         else if kind == "remote" && node != "faraway" then
           bad := some ("C04/remote-binding-lost", s!"a remote unit is no longer bound to its node after the restart (reported node '{node}')")
